@@ -125,15 +125,11 @@ def signerReq (r : Req) : Option String := do
     match e with
     | .l [p, s] => do pure (← p.nat?, ← s.nat?)
     | _ => none
-  pure (match RegPaths.associate stakes signers with
-    | none => "err nostake"
-    | some l =>
-      match RegPaths.build l with
-      | .error e => "err build:" ++ showBuildErr e
-      | .ok b =>
-        match b.slot self with
-        | none => "err unregistered"
-        | some i => s!"ok {showKey b} slot={i}")
+  pure (match RegPaths.signerPath stakes signers self with
+    | .error .nostake => "err nostake"
+    | .error (.build e) => "err build:" ++ showBuildErr e
+    | .error .unregistered => "err unregistered"
+    | .ok (b, i) => s!"ok {showKey b} slot={i}")
 
 def handle (r : Req) : Option String :=
   match r.op with
